@@ -192,9 +192,10 @@ Fails(e) ==
     [] e.ev = "stree" -> TreeFails(e)
     [] OTHER -> {<<"TOOL", "unknown-event", D(e.ev)>>}
 
-ZeroCnt == [sfull |-> 0, srun |-> 0, stree |-> 0, infos |-> 0, mates |-> 0, cut_before_first |-> 0]
+ZeroCnt == [sfull |-> 0, srun |-> 0, stree |-> 0, infos |-> 0, mates |-> 0, cut_before_first |-> 0, reached_last_iteration |-> 0]
 Count(c, e) ==
   CASE e.ev = "sfull" -> [c EXCEPT !.sfull = @ + 1, !.infos = @ + Len(e.infos),
+                                   !.reached_last_iteration = @ + (IF "last_depth" \in DOMAIN e /\ e.last_depth >= 99 THEN 1 ELSE 0),
                                    !.mates = @ + Cardinality({j \in 1..Len(e.infos) : e.infos[j].ok /\ e.infos[j].kind = "mate"})]
     [] e.ev = "srun" -> [c EXCEPT !.srun = @ + 1, !.infos = @ + Len(e.infos),
                                   !.cut_before_first = @ + (IF Len(e.infos) = 0 THEN 1 ELSE 0)]
